@@ -5,15 +5,7 @@ VERIF*/
 #ifdef VERIF_PRE
 #else
 #include "contracts/common/dq_common.h"
-VERIF_CONTRACT(bool, _dispatch_queue_try_acquire_async, (dispatch_lane_t dq),
-  REQ(dq == H_DQ && __verif_n == 0)
-  ASG(dq->dq_state, VERIF_GHOST)
-  ENS(commit_iff_success, __verif_n == (__CPROVER_return_value ? 1 : 0) && VIMPL(__verif_n == 1, IS_COMMIT(0, &dq->dq_state)))
-  ENS(refused_under_barrier_pending_barrier_dirty_full_or_suspension, VIMPL(__CPROVER_return_value,
-        !S_IN_BARRIER(LOGA(0)) && !S_PENDING_B(LOGA(0)) && !S_DIRTY(LOGA(0)) && !S_SUSPENDED(LOGA(0)) && !S_FULL(LOGA(0)) && S_RUNNABLE(LOGA(0))))
-  ENS(reserves_exactly_one_width_unit, VIMPL(__CPROVER_return_value, LOGB(0) == LOGA(0) + DISPATCH_QUEUE_WIDTH_INTERVAL))
-  ENS(acquire_order, VIMPL(__CPROVER_return_value, VMO_IS_ACQ(LOGM(0))))
-)
+#include "contracts/C04/try_acquire_async.contract.h"
 void harness(void)
 {
 	h_setup_lane();
